@@ -2899,6 +2899,13 @@ static Type check_statement_impl(TypeChecker *tc, ASTNode *stmt) {
         case AST_LET: {
             Type declared_type = stmt->as.let.var_type;
             Type original_declared_type = declared_type;  /* Save original before modifications */
+
+            /* void has no values: nothing can be stored in such a variable */
+            if (declared_type == TYPE_VOID) {
+                fprintf(stderr, "Error at line %d, column %d: Variable '%s' cannot have type void\n",
+                        stmt->line, stmt->column, stmt->as.let.name);
+                tc->has_error = true;
+            }
             
             /* Handle generic lists: List<UserType> - Register BEFORE checking expression */
             if (declared_type == TYPE_LIST_GENERIC && stmt->as.let.type_name) {
